@@ -27,6 +27,10 @@ type selfValResult struct {
 	BenignApplied  int      `json:"benign_applied"`
 	BenignSilent   int      `json:"benign_silent"`
 	BenignAlarming int      `json:"benign_alarming"`
+	// behaviour-preserving refactorings written by sub-agents (benign/refactor*): measured, not expected to be all silent
+	RefactorApplied  int `json:"refactorings_applied"`
+	RefactorSilent   int `json:"refactorings_silent"`
+	RefactorAlarming int `json:"refactorings_false_alarms"`
 	Details        []string `json:"details"`
 }
 
@@ -49,6 +53,7 @@ func selfValidate(prop, root string) selfValResult {
 		dir     string
 		benign  bool
 		outside string
+		measure bool // refactoring corpus: counted, never expected
 	}
 	var jobs []job
 	seeds, _ := filepath.Glob(filepath.Join(root, "seeded", "*", "patch.diff"))
@@ -66,13 +71,22 @@ func selfValidate(prop, root string) selfValResult {
 			}
 		}
 		if want {
-			jobs = append(jobs, job{dir, false, m.OutsideClaim})
+			jobs = append(jobs, job{dir: dir, outside: m.OutsideClaim})
 		}
 	}
-	benign, _ := filepath.Glob(filepath.Join(root, "benign", "*", "patch.diff"))
+	benign, _ := filepath.Glob(filepath.Join(root, "benign", "b*", "patch.diff"))
 	sort.Strings(benign)
 	for _, pth := range benign {
-		jobs = append(jobs, job{filepath.Dir(pth), true, ""})
+		jobs = append(jobs, job{dir: filepath.Dir(pth), benign: true})
+	}
+	// the refactoring corpora are measured only on request (they double the run time): BVCHECK_REFACTORINGS=1
+	var refs []string
+	if os.Getenv("BVCHECK_REFACTORINGS") == "1" {
+		refs, _ = filepath.Glob(filepath.Join(root, "benign", "refactor*", "*", "patch.diff"))
+	}
+	sort.Strings(refs)
+	for _, pth := range refs {
+		jobs = append(jobs, job{dir: filepath.Dir(pth), benign: true, measure: true})
 	}
 	var mu sync.Mutex
 	var wg sync.WaitGroup
@@ -88,6 +102,16 @@ func selfValidate(prop, root string) selfValResult {
 			defer mu.Unlock()
 			name := filepath.Base(j.dir)
 			switch {
+			case status == "skipped" && j.measure:
+				// made against an older tree
+			case j.measure:
+				res.RefactorApplied++
+				if status == "silent" {
+					res.RefactorSilent++
+				} else {
+					res.RefactorAlarming++
+					res.Details = append(res.Details, filepath.Base(filepath.Dir(j.dir))+"/"+name+": refactoring (behaviour-preserving) raises a false alarm of this check: "+note)
+				}
 			case status == "skipped":
 				res.Skipped++
 				res.Details = append(res.Details, name+": skipped ("+note+")")
